@@ -283,3 +283,52 @@ def crate_view(prog, crate, known, max_blocks=200, max_callers=3):
     view.inlined_helpers = sorted(helpers)
     cached[key] = view
     return view
+
+
+# ---------------------------------------------------------------------------------------------------------------
+KNOWN_FILE = __import__("os").path.join(__import__("os").path.dirname(__import__("os").path.abspath(__file__)), "known_fns.json")
+
+
+def known_names(crate):
+    import json
+    import os
+    if not os.path.exists(KNOWN_FILE):
+        return None
+    return set(json.load(open(KNOWN_FILE)).get(crate, []))
+
+
+def transparent_view(prog):
+    """the program with every *new* private helper (a function whose name is not in known_fns.json, small, at most 3 call
+    sites) inlined into its callers, for both crates: the rules reason about the functions they know by name, and moving a
+    piece of one of them into a fresh helper must not change any verdict"""
+    kl = known_names("stylua_lib")
+    ks = known_names("stylua")
+    v = prog
+    if kl is not None:
+        v = crate_view(v, "stylua_lib", kl, max_blocks=160, max_callers=3)
+    v = crate_view(v, "stylua", (ks or set()) | KNOWN_STYLUA)
+    return v
+
+
+def freeze_known():
+    import json
+    import extract
+    from facts import Program
+    files, _ = extract.extract(extract.THOROUGH, verbose=False)
+    out = {"stylua_lib": set(), "stylua": set()}
+    for cfg in extract.THOROUGH:
+        prog = Program(cfg, files[cfg])
+        for crate in out:
+            for f in prog.fns(crate):
+                if f.kind != "Closure":
+                    out[crate].add(f.path)
+    with open(KNOWN_FILE, "w") as fh:
+        json.dump({k: sorted(v) for k, v in out.items()}, fh, indent=0)
+    print({k: len(v) for k, v in out.items()})
+
+
+if __name__ == "__main__":
+    import sys
+    if "--freeze" in sys.argv:
+        sys.path.insert(0, __import__("os").path.dirname(__import__("os").path.abspath(__file__)))
+        freeze_known()
